@@ -5,7 +5,7 @@ larger than 2^16): bound constants, guards of Alignment::new from MIR, every lit
 the field is only written by the constructor; value() = 1 << exponent and mask() = value() - 1 by
 constant folding for all 17 exponents; align_down is *exactly* "clear the low e bits" for every 64-bit
 value, by bit-provenance interpretation for each exponent; align_up is the library's
-next_multiple_of(value()). align_modulo's arithmetic is not decided."""
+next_multiple_of(value()). align_modulo: one-alignment shape + tabulation of its MIR over a boundary grid against the specification."""
 import bitflow
 import fold
 import hirq
@@ -151,4 +151,56 @@ def run(ctx, rep):
         ok = "local:value.next_multiple_of(local:self.value())" in sk or ("+ local:self.mask()" in sk.replace("(", "").replace(")", "") and "& (!" in sk)
         rep.ob("align-up-idiom", "shape", ok, f"align_up body: {sk[:120]}", hb["file"], hb["line"])
     rep.assume("u64::next_multiple_of (std) returns the smallest multiple not below the value and panics on overflow")
-    rep.assume("align_modulo's arithmetic over 2^64 x 2^64 values is not decided by this check")
+    align_modulo(ctx, rep, F)
+    rep.assume("align_modulo is decided by (i) the one-alignment shape rule and (ii) tabulation of its MIR over a boundary grid of (exponent, reference, offset) - "
+               "not by a proof over all 2^64 x 2^64 values")
+
+
+def align_modulo(ctx, rep, F):
+    """align_modulo(a, r, x) = the smallest y >= align_up_a(x) with y ≡ r (mod a)."""
+    import mireval
+    from mir import callee_key
+    P = ctx.program()
+    A = "libwild::alignment::Alignment::"
+    rep.rule("align-modulo-one-alignment", "every Alignment method called inside align_modulo (align_up, mask, value) is called on the function's own `self`: the value is aligned up to, "
+             "and made congruent modulo, the same alignment")
+    rep.rule("align-modulo-table", "the MIR of align_modulo (with align_up / mask / value) evaluated for every exponent 0..=16 over a boundary grid of offsets and reference values equals "
+             "min { y >= align_up(x) : y ≡ r (mod 2^e) }")
+    b = F.body(A + "align_modulo")
+    if b is None:
+        rep.lost("align-modulo-one-alignment", "Alignment::align_modulo")
+        return
+    flow = P.flow(b)
+    n = 0
+    for bi, t in flow.calls():
+        ck = callee_key(t["f"]) or ""
+        if ck.startswith(A) and t["args"]:
+            n += 1
+            o = flow.origins(t["args"][0])
+            rep.ob("align-modulo-one-alignment", f"{ck.split('::')[-1]}#{n}", o == {("param", 1)},
+                   f"{ck.split('::')[-1]} is called on self" if o == {("param", 1)} else
+                   f"{ck.split('::')[-1]} is called on a value derived from {sorted(map(str, o))}: the offset is rounded to a different alignment than the one the result must be congruent to "
+                   "(the result is then not the *smallest* admissible value)", b.file, t["l"])
+    rep.floor("align-modulo-one-alignment", "Alignment method calls in align_modulo", n, 3)
+    # tabulation
+    bad = None
+    count = 0
+    try:
+        for e in range(0, 17):
+            a = 1 << e
+            xs = sorted({0, 1, a - 1 if a > 1 else 0, a, a + 1, 2 * a - 1, 2 * a, 3 * a + 1, 4095, 4096, 4097, 65535, 65536, 65537, 0x400420, 0x1234567, (1 << 40) + 3, (1 << 40) + a})
+            rs = sorted({0, 1, a - 1 if a > 1 else 0, a, a + 1, 0x420, 0xfff, 0x1000, 0x10001, 0xabcdef, (1 << 33) + 5})
+            for x in xs:
+                up = (x + a - 1) // a * a
+                for r in rs:
+                    want = up + ((r - up) % a)
+                    got = mireval.call(F, A + "align_modulo", [{"exponent": e}, r, x])
+                    count += 1
+                    if got != want and bad is None:
+                        bad = (e, r, x, got, want)
+    except (mireval.EvalError, mireval.Panic) as ex:
+        rep.ob("align-modulo-table", "evaluated", False, f"align_modulo could not be tabulated: {type(ex).__name__}: {ex}", b.file, b.line)
+        return
+    rep.ob("align-modulo-table", "agrees", bad is None,
+           f"{count} grid points agree with the specification" if bad is None else
+           f"align_modulo(2^{bad[0]}, ref={bad[1]:#x}, offset={bad[2]:#x}) evaluates to {bad[3]:#x}; the smallest admissible value is {bad[4]:#x}", b.file, b.line)
